@@ -1261,6 +1261,13 @@ main(int argc, char **argv) {
 #else
   vx_ev_int("locking_compiled_in", 0);
 #endif
+#ifdef C13_RACE
+  vx_ev_str("race_detector" C13_BUILD, "this stage: library objects compiled with -fsanitize=thread (compile only) and -Dmemcpy/-Dmemmove/-Dmemset/-Dmemcmp=rc_*; "
+            "happens-before detector of the harness (vector clocks per thread and per mutex in the executable's data segment, one shadow cell "
+            "per byte, own stack skipped, free/realloc forget the block) checks every load, store and mem* call of library code on every "
+            "explored schedule while >= 2 threads are alive; a run that sees no instrumented access fails");
+  vx_ev_int("race_detector_symbols", rc_nsyms);
+#endif
   if (!coap_threadsafe_is_supported()) {
     vx_ev_str("vacuous", "coap_threadsafe_is_supported() reports 0 in this configuration: nothing is advertised");
   }
